@@ -32,11 +32,17 @@ func (e *Env) drawChan(allowSync bool, qs []int) ChanCfg {
 	if allowSync {
 		n = 3
 	}
+	q := func() int {
+		if e.P(4) == 3 {
+			return e.PRange(1, 40) // queue sizes between the table entries
+		}
+		return qs[e.P(len(qs))]
+	}
 	switch e.P(n) {
 	case 0:
-		return ChanCfg{Async: true, Q: qs[e.P(len(qs))], Until: true}
+		return ChanCfg{Async: true, Q: q(), Until: true}
 	case 1:
-		return ChanCfg{Async: true, Q: qs[e.P(len(qs))], Until: false}
+		return ChanCfg{Async: true, Q: q(), Until: false}
 	}
 	return ChanCfg{}
 }
@@ -58,6 +64,9 @@ func runC01(e *Env) {
 	cfg.Chan = e.drawBuffered(e.drawChan(true, queueSizes))
 	cfg.Writers = 1 + e.P(4)
 	cfg.PerWriter = 1 + e.P(5)
+	if e.P(8) == 7 {
+		cfg.Writers, cfg.PerWriter = 5+e.P(2), 6+e.P(3) // beyond the usual small configurations
+	}
 	cfg.ExecDelay = e.P(2) == 1
 	h := e.RunWriters(cfg)
 	segs := h.OracleWireIntegrity(e, true)
@@ -84,6 +93,9 @@ func runC02(e *Env) {
 	cfg.Chan = e.drawBuffered(cfg.Chan)
 	cfg.Writers = 1 + e.P(4)
 	cfg.PerWriter = 1 + e.P(4)
+	if e.P(8) == 7 {
+		cfg.Writers, cfg.PerWriter = 5+e.P(2), 6+e.P(3)
+	}
 	cfg.ExecDelay = e.P(2) == 1
 	cfg.BigSizes = e.P(4) == 3
 	h := e.RunWriters(cfg)
